@@ -99,6 +99,11 @@ def generate(rng, tier, idx):
             # the update opens it, and is back - mtime preserved - right after the run (an editor's rename-and-replace)
             same = [o['p'] for o in ops if o['k'] == 'same' and o['p'] in live]
             rnd['vanish'] = rng.choice(same) if same else rng.choice(live)
+        elif ri < n_rounds - 1 and rng.random() < 0.15:
+            # an object that no update can record (named pipe, a name that is not valid UTF-8) lies in a visible directory
+            # during this round's updates and is gone afterwards: both updates refuse; the modifications of this round are
+            # then owed to the NEXT update, incremental or not
+            rnd['obstacle'] = {'d': rng.choice(dirs), 'k': rng.choice(['fifo', 'fifo', 'badname'])}
         rounds.append(rnd)
     opts = {'hashes': rng.choice([['SHA256'], ['MD5', 'SHA1'], ['BLAKE2B', 'SHA512']])}
     if rng.random() < 0.3:
@@ -292,6 +297,7 @@ def execute(sc):
                 return dict((k, v[0]) for k, v in state_of(root).items())
             recorded_state = state_of(A)
             recorded = sizes(A)
+            T_hold = None
             for ri, rnd in enumerate(sc.get('rounds', [])):
                 clock.advance(rnd.get('advance_ns', 0))
                 if rnd.get('advance_ns', 0) < 0:
@@ -299,6 +305,10 @@ def execute(sc):
                     seam.fired['clock-step-back'] = seam.fired.get('clock-step-back', 0) + 1
                 TA = top_timestamp(A)
                 T_ns = int(TA.timestamp()) * 10**9 if TA else None
+                if T_hold is not None:
+                    # the updates of the previous round refused: the modifications made since are still measured against
+                    # the TIMESTAMP of the last update that completed
+                    T_ns = T_hold
                 for op in rnd.get('ops', []):
                     t = resolve_mtime(op['mt'], T_ns, clock.now_ns) if 'mt' in op else clock.now_ns
                     okA = apply_op(A, op, t, recorded, hashes=sc['opts']['hashes'])
@@ -361,11 +371,30 @@ def execute(sc):
                             _o['os.rename'](aside, os.path.join(root, van))
                             counters['files_vanished_during_scan'] = counters.get('files_vanished_during_scan', 0) + 1
                             seam.fired['file-vanished-during-scan'] = seam.fired.get('file-vanished-during-scan', 0) + 1
+                obst = rnd.get('obstacle')
+                obst_paths = []
+                if obst:
+                    for root in (A, B):
+                        op_ = os.path.join(root, obst['d'], 'obstacle-pipe' if obst['k'] == 'fifo' else 'caf\udce9.txt')
+                        try:
+                            if obst['k'] == 'fifo':
+                                os.mkfifo(op_)
+                            else:
+                                with _o['open'](op_, 'w') as f_:
+                                    f_.write('x')
+                            obst_paths.append(op_)
+                        except OSError:
+                            pass
                 rA, ssA = with_vanish('A', A, lambda: upd(A, ['-i'] + (['-t'] if rnd.get('explicit_t') else []), opi))
                 opi += 1
                 seam.hook = hook_scanstart
                 rB, ssB = with_vanish('B', B, lambda: upd(B, (['-t'] if rnd.get('explicit_t') else []), opi))
                 opi += 1
+                for op_ in obst_paths:
+                    _o['os.unlink'](op_)
+                if len(obst_paths) == 2:
+                    counters['rounds_with_an_unrecordable_object'] = counters.get('rounds_with_an_unrecordable_object', 0) + 1
+                    seam.fired['unrecordable-object-during-update'] = seam.fired.get('unrecordable-object-during-update', 0) + 1
                 if inter and fired['done']:
                     # B receives the same modification between the rounds
                     apply_op(B, {'k': 'same', 'p': inter, 'salt': 77}, fired['t'])
@@ -383,9 +412,11 @@ def execute(sc):
                             break
                         violations.append(viol('incr.outcome-differs', 'round %d: incremental %s, full %s' % (ri, describe(rA), describe(rB)), sig='%s/%s' % (rA[0], rB[0])))
                         break
-                    if van:
-                        continue      # both refused and wrote nothing: the history goes on from the same state
+                    if van or len(obst_paths) == 2:
+                        T_hold = T_ns
+                        continue      # both refused: the history goes on, the round's modifications are owed to the next update
                     break
+                T_hold = None
                 # TIMESTAMP never later than the moment scanning started
                 for name, root, ss, op_i in (('A', A, ssA, opi - 2), ('B', B, ssB, opi - 1)):
                     ts = top_timestamp(root)
